@@ -186,8 +186,10 @@ KeywordIdents == {"as", "contains", "in", "is"}
 IdentVocab == {"Patient", "Observation", "active", "name", "given", "family", "gender", "deceased", "telecom", "rank",
                "count", "first", "last", "not", "empty", "exists", "all", "select", "where", "iif", "abs",
                "toString", "intersect", "tail", "take", "single",
-               "Integer", "Boolean", "String", "Decimal", "System", "FHIR", "boolean",
+               "Integer", "Boolean", "String", "Decimal", "System", "FHIR", "boolean", "string",
                "vt", "vi", "x", "y"}
+(* delimited identifiers: the backticks are part of the token *)
+DelimVocab == {"`active`", "`name`", "`Patient`", "`given`"}
 NumberVocab == {"0", "1", "2", "3", "4", "5", "6", "7", "8", "9", "10", "12", "42"}
 StringVocab == {"'a'", "'b'", "'c'", "'ab'", "'male'"}
 Dollars    == {"$this", "$index", "$total"}
@@ -197,13 +199,14 @@ Puncts     == {"(", ")", "[", "]", "{", "}", ".", ",", "%", "+", "-", "*", "/", 
 TokClass(tok) ==
   CASE tok \in Keywords    -> "word"
     [] tok \in IdentVocab  -> "word"
+    [] tok \in DelimVocab  -> "delim"
     [] tok \in NumberVocab -> "num"
     [] tok \in StringVocab -> "str"
     [] tok \in Dollars     -> "dollar"
     [] tok \in Puncts      -> "punct"
     [] OTHER               -> "unknown"
 
-IsName(tok) == tok \in IdentVocab \/ tok \in KeywordIdents
+IsName(tok) == tok \in IdentVocab \/ tok \in KeywordIdents \/ tok \in DelimVocab
 
 (***************************************************************************)
 (* NeedsGap(a, b): must tokens a, b (adjacent, in this order) be separated *)
@@ -220,7 +223,8 @@ IsName(tok) == tok \in IdentVocab \/ tok \in KeywordIdents
 (*   - $this/$index/$total followed by a letter or digit: kept apart       *)
 (*     (conservative).                                                     *)
 (* `-` after `-`, `(` after a name, `'a'` after `'b'`, `%` before a name,  *)
-(* `{` before `}` need no gap.                                             *)
+(* `{` before `}` need no gap; a delimited identifier carries its own      *)
+(* delimiters and never needs one.                                         *)
 (***************************************************************************)
 NeedsGap(a, b) ==
   LET ca == TokClass(a)
